@@ -161,6 +161,7 @@ func WorkerMain(prop, tier string, i, n int, out string, deadlineUnix int64, max
 		fmt.Fprintf(os.Stderr, "unknown property %s\n", prop)
 		return 2
 	}
+	realOut := os.Stdout // the library's view of os.Stdout is a scratch file from here on
 	WatchStdout()
 	base := baseSeed()
 	relax := relaxFromEnv()
@@ -188,7 +189,7 @@ func WorkerMain(prop, tier string, i, n int, out string, deadlineUnix int64, max
 			for _, h := range setToList(st.Schedules) {
 				sh = HashU64(sh, h)
 			}
-			fmt.Printf("RUN %d sc=%016x obs=%016x perm=%016x yields=%d allyields=%d switches=%d sched=%016x states=%d v=%v\n", run, sc.Hash(), env.Digest(), env.PermLog(), env.Yields(), st.Yields, st.Switches, sh, len(st.States), v != nil)
+			fmt.Fprintf(realOut, "RUN %d sc=%016x obs=%016x perm=%016x yields=%d allyields=%d switches=%d sched=%016x states=%d v=%v\n", run, sc.Hash(), env.Digest(), env.PermLog(), env.Yields(), st.Yields, st.Switches, sh, len(st.States), v != nil)
 		}
 		if len(st.Samples) < 3 {
 			st.Samples = append(st.Samples, map[string]interface{}{"run": run, "seed": sc.Seed, "scenario": sc.Readable()})
